@@ -101,6 +101,61 @@ Theorem C16_autofert_organic_nonneg :
   (0 <= p_ndir p /\ 0 <= p_nh4n p /\ 0 <= p_nsas p /\ 0 <= p_nlas p)%R.
 Proof. exact dueng_row_nonneg. Qed.
 
+(* ---- statements about the state (the trigger conditions are modelled, RotationModel.sow_cond / harvest_cond /
+        irr_state / autofert_day; tied bit-exact to the real runs on the traced days) ---- *)
+
+(* sowing happens on the first day of the window on which the modelled condition (temperature sum of the year,
+   sliding mean and daily temperature against TSLMIN/TSLMAX, top-layer moisture between MINMOI and MAXMOI, rain
+   today <= 0.5 and yesterday <= 5) holds and that is later than the previous harvest + 4 — else on the last day *)
+Theorem C16_sow_first_day :
+  forall (env : Z -> sow_env R) (saat1 saat2 prev : Z) (fuel : nat) (z : Z),
+  0 < z -> 0 < saat1 -> saat1 <= saat2 -> z <= saat2 -> saat2 < z + Z.of_nat fuel ->
+  let s := sow_loop (fun y => sow_cond (env y)) saat1 saat2 prev fuel z 0 in
+  let lo := Z.max z saat1 in
+  lo <= s <= saat2 /\
+  (forall y, lo <= y < s -> ~ (sow_cond (env y) = true /\ prev + 4 < y)) /\
+  (s < saat2 -> sow_cond (env s) = true /\ prev + 4 < s).
+Proof. exact sow_first_day_state. Qed.
+
+(* harvest happens on the first day on which the modelled condition (emerged, last development stage with more than
+   60 % of its temperature sum, top-layer moisture between MINHMOI and MAXHMOI, four-day rain <= RAINLIM, rain today
+   <= RAINACT, day of year > 3) holds — else on the configured latest date *)
+Theorem C16_harvest_first_day :
+  forall (env : Z -> harv_env R) (fuel : nat) (z e2 : Z),
+  0 < z -> z <= e2 - 1 -> e2 - 1 < z + Z.of_nat fuel ->
+  let '(e, e2') := harvest_loop (fun y => harvest_cond (env y)) fuel z 0 e2 in
+  z <= e <= e2 /\ (forall y, z <= y < e -> y <= e2 - 1 -> harvest_cond (env y) = false) /\
+  (e < e2 -> harvest_cond (env e) = true) /\ e2' = (if e <? e2 then e else e2).
+Proof. exact harvest_first_day_state. Qed.
+
+(* automatic irrigation as a function of the state: applied only after sowing, inside the stage window, when the mean
+   plant-available water over the irrigation depth is below IRRLOW and the two-day rain forecast is below 0.9;
+   amount = 90 % of the modelled deficit clipped to IRRMAX; non-negative when field capacity exceeds the wilting point *)
+Theorem C16_irr_state :
+  forall (z saat : Z) (intwick irrst1 irrst2 irrmax : R) (e : irr_env R) (amount : R),
+  auto_irr_state z saat intwick irrst1 irrst2 irrmax e = Some amount ->
+  (0 < saat < z) /\ (irrst1 <= intwick < irrst2 + 1)%R /\
+  (fst (irr_state e) < ie_irrlow e)%R /\ (ie_rain1 e + ie_rain2 e < 9 / 10)%R /\
+  amount = Rmin (snd (irr_state e) * (9 / 10)) irrmax /\ (amount <= irrmax)%R /\
+  ((forall wg w wmin, In (wg, w, wmin) (ie_layers e) -> (wmin < w)%R) -> (0 <= irrmax)%R -> (0 <= amount)%R).
+Proof. exact auto_irr_state_rule. Qed.
+
+Theorem C16_irr_state_none :
+  forall (z saat : Z) (intwick irrst1 irrst2 irrmax : R) (e : irr_env R),
+  (~ (0 < saat < z) \/ (intwick < irrst1)%R \/ (irrst2 + 1 <= intwick)%R \/ irr_cond e = false) ->
+  auto_irr_state z saat intwick irrst1 irrst2 irrmax e = None.
+Proof. exact auto_irr_state_none. Qed.
+
+(* every event of an automatic-fertilisation call: organic (directly available N of the table split) or a mineral
+   dose = max(0, demand - Nmin) >= 0 *)
+Theorem C16_autofert_doses :
+  forall (e : af_env R) (s : af_state R) (k : Z) (a : R),
+  In (k, a) (snd (autofert_day e s)) ->
+  (k = 0 /\ a = o_ndir (ae_pay_prev e)) \/ (k = 1 /\ a = o_ndir (ae_pay_cur e)) \/
+  ((0 <= a)%R /\ exists nmin, a = Rmax ((if k =? 2 then ae_ndem1 e else if k =? 3 then ae_ndem2 e else ae_ndem3 e) - nmin) 0 /\
+                           2 <= k <= 4).
+Proof. exact autofert_doses. Qed.
+
 (* non-vacuity: a window 130..140 after a harvest on day 128, trigger true from day 131 on: sown on 133 *)
 Example C16_sow_example :
   sow_loop (fun z => 131 <=? z) 130 140 128 30 120 0 = 133.
@@ -117,3 +172,8 @@ Print Assumptions C16_irr_window.
 Print Assumptions C16_irr_outside_window.
 Print Assumptions C16_autofert_nonneg.
 Print Assumptions C16_autofert_organic_nonneg.
+Print Assumptions C16_sow_first_day.
+Print Assumptions C16_harvest_first_day.
+Print Assumptions C16_irr_state.
+Print Assumptions C16_irr_state_none.
+Print Assumptions C16_autofert_doses.
